@@ -61,10 +61,11 @@ def to_coq(c):
         n3 = "s1" if s3 == s1 else ("s2" if s3 == s2 else s3)
         return "(let s1 := %s in let s2 := %s in CLine %d %s %d %s %s s1 s2 %s %s)" % (
             s1, n2, t, cbool(c["v2"]), c["serial"], cbool(c["wf"]), cbytes(c["line"]), n3, _tables(c))
-    return "CFile %s %d %d %s %s %s %s %s %s %s %s %s %s" % (
-        cbool(c["v2"]), c["serial"], c["pre_serial"], cbool(c["wf"]),
-        clist([cbytes(l) for l in c["file"]]),
-        cbool(c["pre_err"] != ""), clist([cbytes(l) for l in c["pre"]]),
+    lite = bool(c.get("lite"))
+    return "CFile %s %s %d %d %s %s %s %s %s %s %s %s %s %s" % (
+        cbool(lite), cbool(c["v2"]), c["serial"], c["pre_serial"], cbool(c["wf"]),
+        "[]" if lite else clist([cbytes(l) for l in c["file"]]),
+        cbool(c["pre_err"] != ""), "[]" if lite else clist([cbytes(l) for l in c["pre"]]),
         cbool(c["orig_err"] != ""), _dump(c["orig"]),
         cbool(c["p_err"] != ""), _dump(c["pdump"]),
         _kv(c["acc"]), _tables(c))
